@@ -493,14 +493,29 @@ def nums():
     )
 
 
+LONG_WORDS = ["Percent protected area", "mean annual temperature (degC)", "a", "road density, km per km2", "x y", "riparian buffer 30 m", "NDVI"]
+
+
+@st.composite
+def long_lists(draw, of_strings):
+    """Lists and strings at a scale where a serialiser starts to think about line width (> 100 characters)."""
+    k = draw(st.integers(8, 40))
+    if of_strings:
+        return {"t": "list", "items": [{"t": "str", "v": draw(st.sampled_from(LONG_WORDS)) + draw(st.sampled_from(["", " %d" % i, " " * (i % 3)]))} for i in range(k)]}
+    return {"t": "list", "items": [draw(nums()) for _ in range(k)]}
+
+
 @st.composite
 def kinds_command(draw, name, earlier, api):
     args = []
+    big = draw(st.integers(0, 7)) == 0
     chosen = draw(st.lists(st.sampled_from(["S", "Num", "Flag", "P", "T", "NumList", "StrList", "Nested", "R", "RList", "Metadata"]),
                            min_size=1, max_size=5, unique=True))
     for pn in chosen:
         if pn == "S":
             v = draw(strs())
+            if big:
+                v = {"t": "str", "v": " ".join(draw(st.lists(st.sampled_from(LONG_WORDS), min_size=6, max_size=20)))}
         elif pn == "Num":
             v = draw(nums())
         elif pn == "Flag":
@@ -511,11 +526,13 @@ def kinds_command(draw, name, earlier, api):
         elif pn == "T":
             v = {"t": "dtype", "v": draw(st.sampled_from(["Float", "Integer"])), "as": "object" if api and draw(st.booleans()) else "name"}
         elif pn == "NumList":
-            v = {"t": "list", "items": draw(st.lists(nums(), max_size=4))}
+            v = draw(long_lists(False)) if big else {"t": "list", "items": draw(st.lists(nums(), max_size=4))}
         elif pn == "StrList":
-            v = {"t": "list", "items": draw(st.lists(strs(), max_size=3))}
+            v = draw(long_lists(True)) if big else {"t": "list", "items": draw(st.lists(strs(), max_size=3))}
         elif pn == "Nested":
             v = {"t": "list", "items": [{"t": "list", "items": draw(st.lists(nums(), max_size=3))} for _ in range(draw(st.integers(0, 3)))]}
+            if big:
+                v = {"t": "list", "items": [draw(long_lists(False)) for _ in range(draw(st.integers(1, 3)))]}
         elif pn in ("R", "RList"):
             if not earlier:
                 continue
